@@ -23,7 +23,10 @@ and type, returns false without touching the buffer on a match, and otherwise ap
 fewer than two octets remain or the declared length does not fit -- decided at every None return from the facts in
 force there, including the failure postconditions of slice::get / try_into on that path (linear engine with cases).
 (shared) octet-level ASCII case folding (eq_ignore_ascii_case, to/make_ascii_lowercase on octets) is called only from the
-name-label code: RDATA outside embedded names is compared octet for octet.
+name-label code: RDATA outside embedded names is compared octet for octet;
+(e) the name-aware comparison decides the result only for well-formed RDATA: in the arm in which all name fields were
+found valid and equal, `true` or a comparison of only the tail happens only where len(RDATA) == consumed name length + the
+size of the type's fixed fields is implied (SOA 20, CH A 2, MINFO / plain names 0); otherwise all octets are compared.
 Not decided: reflexivity / transitivity over arbitrary octets.
 """
 ASSUMPTIONS = ['every CFG path is assumed feasible', 'Name equality is case-insensitive and implies equal wire length (C16)']
@@ -77,6 +80,7 @@ def check(R, F):
                 eqlen = any(re.match(r'^Ne\(Rdata::len\(arg1\),Rdata::len\(arg2\)\) in \[0\]$', x) for x in g_all)
                 R.require(eqlen, 'symmetry', '%s|equal-lengths-first' % fn.gpath, fn.where(cb), 'name-field comparison happens only under len(a) == len(b)', 'test_n_name_fields is used without a len(a) == len(b) guard and without a direct symmetric length test')
     R.floor('symmetry', 4, 'names_equal, equals_as_ch_a, equals_as_soa, equals_as_minfo')
+    check_wellformed_only(R, F, users)
     # callers of names_equal on sub-slices (MX, SRV): both slices start at the same constant offset, under equal lengths
     for gp, fn in F.fns.items():
         if not gp.startswith('rr::rdata::') or gp == 'rr::rdata::Rdata::equals':
@@ -194,3 +198,53 @@ def check_member_iterator(R, F):
         R.require(ok, 'member-scan', it.gpath + '|none-only-at-end#%d' % k, it.where(b), 'None only when < 2 octets remain or the declared length does not fit',
                   'Iter::next returns None at %s although two or more octets remain and the declared length fits (%s): a stored member is skipped, so insert\'s duplicate scan and every reader miss it' % (it.where(b), why))
     R.floor('member-scan', 2)
+
+
+# fixed-size part that follows the name fields in a well-formed RDATA of the type (RFC 1035 section 3.3: SOA has five
+# 32-bit fields, CH A a 16-bit address, MINFO and the plain name types nothing)
+TAIL = {'rr::rdata::std13::<impl rr::rdata::Rdata>::equals_as_ch_a': 2, 'rr::rdata::std13::<impl rr::rdata::Rdata>::equals_as_soa': 20,
+        'rr::rdata::std13::<impl rr::rdata::Rdata>::equals_as_minfo': 0, 'rr::rdata::helpers::names_equal': 0}
+
+
+def check_wellformed_only(R, F, users):
+    """(e) Case-insensitive comparison of the embedded names decides the result only for WELL-FORMED RDATA: in the arm in
+    which test_n_name_fields found all name fields valid and equal (consumed length L), a `true` result or a comparison of
+    only part of the octets (the tail from L on) happens only where the facts in force imply len(RDATA) == L + K, K being
+    the size of the type's fixed fields; otherwise the function must fall back to comparing all octets.  Decided with the
+    linear engine at each such site."""
+    from qv.bounds import Analyzer, add, eq as eq_, lin
+    from rules import e5
+    for fn, cs in users:
+        K = TAIL.get(fn.gpath)
+        if K is None:
+            R.bad('wellformed-only', fn.gpath + '|tail-size', fn.where(), 'no fixed-field size is recorded for this user of test_n_name_fields: shape not recognised')
+            continue
+        A = Analyzer(fn, F, e5.make_summary(F))
+        for cb, ct in cs:
+            if ct['dest']['p']:
+                continue
+            r = ct['dest']['l']
+            Lp = lin(A.atom_place({'l': r, 'p': [{'down': 1, 'n': 'Some'}, {'f': 0, 'n': '0', 'ty': ''}, {'down': 1, 'n': 'Some'}, {'f': 0, 'n': '0', 'ty': ''}], 'ty': ''}))
+            a_txt = paths.show_operand(fn, ct['args'][0])
+            b_txt = paths.show_operand(fn, ct['args'][1])
+            whole = {a_txt, b_txt, re.sub(r'\.octets$', '', a_txt), re.sub(r'\.octets$', '', b_txt)}
+            sites = []
+            for b, blk in enumerate(fn.blocks):
+                if blk['cleanup'] or not any('test_n_name_fields' in x and '@Some.0) in [1]' in x for x in paths.dom_guards(fn, b)):
+                    continue
+                for i, st in enumerate(blk['stmts']):
+                    if st['k'] == 'assign' and not st['lhs']['p'] and st['lhs']['l'] == 0 and st['rv']['k'] == 'use' and st['rv']['op']['k'] == 'const' and const_name(st['rv']['op']) == 'true':
+                        sites.append((b, i, 'returns true'))
+                t = blk['term']
+                if t['k'] == 'call' and re.search(r'PartialEq<[^>]*>( for [^>]*)?>::(eq|ne)$', callee_name(t)) and len(t['args']) == 2:
+                    ops = [paths.show_operand(fn, a) for a in t['args']]
+                    if not all(o in whole for o in ops):
+                        sites.append((b, None, 'compares %s' % ops))
+            for k, (b, i, what) in enumerate(sites):
+                A._site = (b, i)
+                goal_total = lin('len:(*_1).octets') if fn.argc >= 1 and 'Rdata' in fn.local_ty(1) else lin('len:(*_1)')
+                ok, facts, res = A.prove(b, i, eq_(goal_total, add(Lp, lin(c=K))))
+                R.require(ok, 'wellformed-only', '%s|%s#%d' % (fn.gpath, 'partial-comparison-needs-exact-length', k), fn.where(b),
+                          'name-aware result only with len == names + %d' % K,
+                          '%s %s in the arm where the names matched case-insensitively, without len(RDATA) == consumed name length + %d being implied: malformed RDATA whose names differ only in case compare equal instead of falling back to the octet-wise comparison' % (fn.gpath.split('::')[-1], what, K))
+    R.floor('wellformed-only', 3)
